@@ -62,6 +62,13 @@ func judge(t *rapid.T, p ls.Program, what string) {
 			break
 		}
 	}
+	if p.Abrupt {
+		ev.Label("new_push_cancel_wait_back_to_back")
+		nt = true
+	}
+	if p.EarlyWaiter {
+		ev.Label("Wait_called_straight_after_New")
+	}
 	if res.ByDeadline {
 		ev.Label("context_with_deadline")
 	}
